@@ -262,6 +262,21 @@ Section Inflect.
     end.
 End Inflect.
 
+(* does [inflected] hand this string to the suffix rules (rule.go:72)?  Not when the irregular branch
+   returns (before the fix it always did once the expression matched) and not when the uninflected
+   expression matches. *)
+Definition reaches_suffix (fixed : bool) (tbl : list (bytes * bytes)) (unf : list (list atom)) (s : bytes) : bool :=
+  match irregular_match (map fst tbl) s with
+  | Some (_, _, word) =>
+      if fixed then
+        match lookup (go_to_lower word) tbl with
+        | Some _ => false
+        | None => negb (uninflected_match unf s)
+        end
+      else false
+  | None => negb (uninflected_match unf s)
+  end.
+
 (* Side conditions on a table under which the model of the regular expression is exact and the
    theorems hold: words are non-empty and lower-case ASCII letters only (so the alternation is a
    list of literals, contains no '\n', and (?i) folding is the orbit written in [eat_fold]);
